@@ -301,6 +301,9 @@ def _match_known(known, pid, v):
                 pass
         elif k.get('input') is not None and k['input'] == v.get('input'):
             return k
+        elif k.get('input_smiles') is not None and isinstance(v.get('input'), dict) and \
+                k['input_smiles'] == v['input'].get('smiles'):
+            return k
     return None
 
 
